@@ -834,6 +834,71 @@ def judgeC16 (ops : List OpRec) : List String :=
     | _ => s) ({} : J16)
   s.out
 
+/-! ### C07 -/
+
+structure J07 where
+  cluster : Cluster := {}
+  /-- expected first fetch offset per (topic, partition) of the consumer just created; `none` = not judged -/
+  expect : List ((Bytes × Int) × Int) := []
+  pending : Bool := false
+  out : List String := []
+
+def judgeC07 (ops : List OpRec) : List String :=
+  let v (s : J07) (sig : String) (op : OpRec) (d : String) : J07 :=
+    { s with out := s.out ++ [s!"{sig} | op {op.idx} `{" ".intercalate (op.toks.take 1)}`: {d}"] }
+  let s := ops.foldl (fun (s : J07) op =>
+    let s := { s with cluster := applySetup s.cluster op.setup }
+    let c := s.cluster
+    let s := match op.toks with
+    | "consumer_create" :: _ :: opts =>
+      let group := ((lastOpt opts "group").bind fromHex).getD []
+      let storage := (lastOpt opts "storage").getD "none"
+      let fb := (lastOpt opts "fallback").getD "latest"
+      let topics : List Bytes := opts.filterMap fun o => let (k, x) := kv o; if k == "topic" then fromHex x else none
+      let parts : List (Bytes × Int × PartState) := topics.flatMap fun t =>
+        match c.topic? t with
+        | some ts => (List.range ts.parts.length).zip ts.parts |>.map fun (i, p) => (t, ((i : Nat) : Int), p)
+        | none => []
+      let committed (t : Bytes) (p : Int) : Option Int :=
+        if group.isEmpty || storage == "none" then none else
+        match c.groups.find? (fun (e : (Bytes × Bytes × Int) × Int) => e.1 == (group, t, p)) with
+        | some e => if e.2 == -1 then none else some e.2
+        | none => none
+      let fbOff (p : PartState) : Option Int :=
+        if fb == "earliest" then some p.earliest else if fb == "latest" then some p.hw
+        else match fb.splitOn ":" with
+          | ["time", t] => t.toInt?.map (offsetForTime p)
+          | _ => none
+      let anyCommitted := parts.any fun (t, p, _) => (committed t p).isSome
+      let byTime := fb.startsWith "time:"
+      -- per partition: the committed offset when within [earliest, latest], else the fallback; none = cannot be determined
+      let want : List ((Bytes × Int) × Option Int) := parts.map fun (x : Bytes × Int × PartState) =>
+        let t := x.1
+        let p := x.2.1
+        let ps := x.2.2
+        match committed t p with
+        | some cm => if ps.earliest ≤ cm ∧ cm ≤ ps.hw then ((t, p), some cm)
+                     else ((t, p), if byTime then none else fbOff ps)
+        | none => ((t, p), if byTime ∧ anyCommitted then none else fbOff ps)
+      if op.result == "ok" then
+        if want.any (·.2.isNone) then v s "C07-created-without-offset" op "creation succeeded although no start offset can be determined for a partition"
+        else { s with expect := want.filterMap (fun (x : (Bytes × Int) × Option Int) => x.2.map fun o => (x.1, o)), pending := true }
+      else { s with pending := false }
+    | ["poll"] =>
+      if !s.pending then s else
+      let got : List ((Bytes × Int) × Int) := (framesOf op).flatMap fun (x : Bytes × Request) => match x.2.body with
+        | ReqBody.fetch _ _ _ ts => ts.flatMap fun (tp : Bytes × List FetchPart) => tp.2.map fun (p : FetchPart) => ((tp.1, p.partition), p.offset)
+        | _ => []
+      let s := got.foldl (fun (s : J07) (x : (Bytes × Int) × Int) =>
+        match s.expect.find? (fun (e : (Bytes × Int) × Int) => e.1 == x.1) with
+        | some (_, w) => if w == x.2 then s else
+            v s "C07-wrong-start-offset" op s!"first fetch of {toHexTok x.1.1}/{x.1.2} asks for offset {x.2}, expected {w}"
+        | none => s) s
+      { s with pending := false }
+    | _ => s
+    { s with cluster := evolve s.cluster op }) ({} : J07)
+  s.out
+
 def judge (prop : String) (lines : List String) : List String :=
   let ops := parseOps lines
   match prop with
@@ -845,6 +910,7 @@ def judge (prop : String) (lines : List String) : List String :=
   | "C14" => judgeC14 ops
   | "C20" => judgeC20 ops
   | "C16" => judgeC16 ops
+  | "C07" => judgeC07 ops
   | _ => []
 
 end Kafka.Judge
